@@ -57,7 +57,7 @@ Section Eq.
                    | (EvVal nx o2, st2) =>
                        match logical_op op with
                        | Some f => Ok (EvVal (vbool (f unar nx)) o2, st2)
-                       | None => Panic 880
+                       | None => Panic 886
                        end
                    end
                end
@@ -80,7 +80,7 @@ Section Eq.
                | (EvVal nx o2, st2) =>
                    match equality_op parse_float re_match op with
                    | Some f => Ok (EvVal (vbool (f comp nx)) o2, st2)
-                   | None => Panic 847
+                   | None => Panic 853
                    end
                end
            end
@@ -102,7 +102,7 @@ Section Eq.
                | (EvVal nx o2, st2) =>
                    match comparison_op parse_float op with
                    | Some f => Ok (EvVal (vbool (f logic nx)) o2, st2)
-                   | None => Panic 824
+                   | None => Panic 830
                    end
                end
            end
@@ -207,7 +207,7 @@ Section Eq.
                    | (EvVal v _, st1) => Ok (v, st1)
                    | (EvCollapse _, st1) => Ok (vfalse, st1)
                    end
-               | ExNone => Panic 895
+               | ExNone => Panic 692
                end
       end.
   Proof. reflexivity. Qed.
